@@ -73,7 +73,8 @@ Inductive slabel :=
 | AMark (i : nat) (skip : bool)  (* loop: none -> skipped (precondition / upstream skipped) | canceled (upstream failed or canceled) *)
 | AEnd (i : nat) (ok : bool)     (* worker: running -> finished (:214) | failed + lastError (:190-192) *)
 | ARetryInc (i : nat)            (* worker: retryCount+1, still running (:178); then it sleeps for the retry interval *)
-| ARetry (i : nat)               (* worker: running -> none (:187), the loop will launch the step again *)
+| ARetry (i : nat)               (* worker: status := none, UNCONDITIONALLY (the loop will launch the step again): running -> none, and
+                                    canceled -> none when a stop request flipped the node while the worker was tearing down *)
 | ASignal (i : nat)              (* Signal: running -> canceled (node.go:244-259); needs the cancel flag *)
 | ATimeout (i : nat)             (* worker after the DAG deadline: running -> canceled + lastError (:166-173) *)
 | ACancel                        (* the cancel flag is set (Signal / Cancel) *)
@@ -126,7 +127,8 @@ Definition sstep (s : sched) (l : slabel) : option sched :=
       end
   | ARetry i =>
       match sph s, st_at (tbl s) i with
-      | SLoop, Some n => if is_running (nst n) then Some (set_st s i (mkNode NNone (nrc n))) else None
+      | SLoop, Some n => if is_running (nst n) || (match nst n with NCancel => canc s | _ => false end)
+                         then Some (set_st s i (mkNode NNone (nrc n))) else None
       | _, _ => None
       end
   | ASignal i =>
